@@ -32,16 +32,19 @@ Variable cfg : config.
 Variable sd : side.
 Lemma ext_read q : pres Rext (stmt_read sd q).
 Proof. intros s. unfold stmt_read. destruct (dead s sd); cbn; [apply Rext_refl|]. apply Rext_same_heaps. intros []; reflexivity. Qed.
-Lemma ext_write A q (f : table -> A * table) : pres Rext (stmt_write sd q f).
+Lemma ext_write A q rf (f : table -> A * table) : pres Rext (stmt_write sd q rf f).
 Proof.
   intros s. unfold stmt_write. destruct sd.
   - destruct (pending s); cbn; [apply Rext_same_heaps; intros []; reflexivity|].
+    match goal with |- context [rf ?x] => destruct (rf x) end; cbn; [apply Rext_same_heaps; intros []; reflexivity|].
     match goal with |- context [f ?x] => destruct (f x) as [a t] end. cbn. apply Rext_same_heaps; intros []; reflexivity.
   - destruct (tobs s); cbn; [apply Rext_refl|].
+    match goal with |- context [rf ?x] => destruct (rf x) end; cbn; [apply Rext_same_heaps; intros []; reflexivity|].
     match goal with |- context [f ?x] => destruct (f x) as [a t] end. cbn. apply Rext_same_heaps; intros []; reflexivity.
 Qed.
-Lemma ext_insert r : pres Rext (db_insert sd r). Proof. apply ext_write. Qed.
-Lemma ext_update id c v : pres Rext (db_update sd id c v). Proof. apply ext_write. Qed.
+Lemma ext_insert r : pres Rext (db_insert cfg sd r). Proof. apply ext_write. Qed.
+Lemma ext_update id c v : pres Rext (db_update cfg sd id c v). Proof. apply ext_write. Qed.
+Lemma ext_update_cols id l : pres Rext (db_update_cols cfg sd id l). Proof. apply ext_write. Qed.
 Lemma ext_delete id : pres Rext (db_delete sd id). Proof. apply ext_write. Qed.
 Lemma heap_with_heap s h sd' : heap (cn (with_heap s sd h) sd') = if side_eqb sd sd' then h else heap (cn s sd').
 Proof. destruct sd, sd'; reflexivity. Qed.
@@ -82,7 +85,7 @@ Definition ext_cache_put := fp_cache_put cfg sd Rext Rext_refl Rext_trans ext_cc
 Definition ext_expire_ids := fp_expire_ids cfg sd Rext Rext_refl Rext_trans ext_upd ext_cch.
 Definition ext_so_expire := fp_so_expire cfg sd Rext Rext_refl Rext_trans ext_upd ext_cch.
 Definition ext_run_op :=
-  fp_run_op cfg sd Rext Rext_refl Rext_trans ext_read ext_insert ext_update ext_delete ext_upd ext_new ext_cch ext_del ext_push ext_drop.
+  fp_run_op cfg sd Rext Rext_refl Rext_trans ext_read ext_insert ext_update ext_update_cols ext_delete ext_upd ext_new ext_cch ext_del ext_push ext_drop.
 End ExtInst.
 
 (* ------------------------------------------------------------------ cache entries point at instances of their id *)
@@ -137,12 +140,14 @@ Lemma ok_read sd' q : keeps I (stmt_read sd' q).
 Proof.
   apply keeps_of_pres. intros s Hs. unfold stmt_read. destruct (dead s sd'); cbn; exact Hs.
 Qed.
-Lemma ok_write sd' A q (f : table -> A * table) : keeps I (stmt_write sd' q f).
+Lemma ok_write sd' A q rf (f : table -> A * table) : keeps I (stmt_write sd' q rf f).
 Proof.
   apply keeps_of_pres. intros s Hs. unfold stmt_write. destruct sd'.
   - destruct (pending s); cbn; [exact Hs|].
+    match goal with |- context [rf ?x] => destruct (rf x) end; cbn; [exact Hs|].
     match goal with |- context [f ?x] => destruct (f x) as [a t] end. cbn. exact Hs.
   - destruct (tobs s); cbn; [exact Hs|].
+    match goal with |- context [rf ?x] => destruct (rf x) end; cbn; [exact Hs|].
     match goal with |- context [f ?x] => destruct (f x) as [a t] end. cbn. exact Hs.
 Qed.
 Lemma ok_upd o f : keeps_id f -> keeps I (upd_inst sd o f).
@@ -338,7 +343,10 @@ Proof.
   destruct hit as [o|].
   - destruct sel as [r|].
     + eapply hoare_bind with (R := fun _ s => cache_ok s sd /\ known s sd o id).
-      { eapply hoare_pre; [apply hoare_known; [apply ok_select_init|apply ext_select_init]|]. intros s [H1 H2]. auto. }
+      { apply hoare_gets. intros s [H1 H2]. auto. }
+      intros i0. destruct (dirty i0); [apply hoare_ret; auto|].
+      eapply hoare_bind with (R := fun _ s => cache_ok s sd /\ known s sd o id).
+      { apply hoare_known; [apply ok_select_init|apply ext_select_init]. }
       intro. eapply hoare_bind with (R := fun _ s => cache_ok s sd /\ known s sd o id).
       { apply hoare_known; [apply ok_upd; intros i; reflexivity|apply ext_upd; intros i; reflexivity]. }
       intro. apply hoare_ret. auto.
@@ -365,20 +373,26 @@ Proof.
       intro. apply hoare_ret. auto.
 Qed.
 
-Lemma ok_so_read o c : keeps I (so_read sd o c).
+Lemma ok_so_read o c : keeps I (so_read cfg sd o c).
 Proof.
   unfold so_read. repeat kstep; try apply ok_select_init; try apply ok_db_select_one.
   apply ok_upd. intros i; reflexivity.
 Qed.
-Lemma ok_so_set o c v : keeps I (so_set sd o c v).
+Lemma ok_so_set o c v : keeps I (so_set cfg sd o c v).
 Proof.
-  unfold so_set, db_update. repeat kstep; try apply ok_write. apply ok_upd. intros i; reflexivity.
+  unfold so_set, db_update. repeat kstep; try apply ok_write; apply ok_upd; intros i; reflexivity.
 Qed.
-Lemma ok_so_sync o : keeps I (so_sync sd o).
+Lemma ok_so_sync_update o : keeps I (so_sync_update cfg sd o).
 Proof.
-  unfold so_sync. repeat kstep; try apply ok_select_init; try apply ok_db_select_one.
+  unfold so_sync_update, db_update_cols. repeat kstep; try apply ok_write; apply ok_upd; intros i; reflexivity.
+Qed.
+Lemma ok_so_reload o : keeps I (so_reload sd o).
+Proof.
+  unfold so_reload. repeat kstep; try apply ok_select_init; try apply ok_db_select_one.
   apply ok_upd. intros i; reflexivity.
 Qed.
+Lemma ok_so_sync o : keeps I (so_sync cfg sd o).
+Proof. unfold so_sync. repeat kstep; try apply ok_so_sync_update; apply ok_so_reload. Qed.
 Lemma ok_so_expire o : keeps I (so_expire cfg sd o).
 Proof.
   unfold so_expire. kstep; [kstep|]. kstep; [apply ok_upd; intros i; reflexivity|]. kstep; [kstep|].
@@ -395,7 +409,7 @@ Lemma ok_so_create a b :
 Proof.
   unfold so_create, db_insert.
   eapply hoare_bind; [apply ok_write|intros id].
-  eapply hoare_bind; [apply (ok_new_known {| i_id := id; i_vals := [Some a; Some b]; i_expired := false; i_obsolete := false |})|intros o].
+  eapply hoare_bind; [apply (ok_new_known {| i_id := id; i_vals := [Some a; Some b]; i_expired := false; i_obsolete := false; i_pending := [None; None] |})|intros o].
   cbn [i_id].
   eapply hoare_bind with (R := fun _ s => cache_ok s sd /\ known s sd o id).
   { intros s [Hs Hk]. pose proof (ok_cache_created id o s (conj Hs Hk)) as H.
@@ -500,21 +514,21 @@ Proof.
     destruct (side_eq_dec (fst x) sd) as [->|Hne]; [apply ok_so_read|].
     (* the handle of another evaluation point cannot differ: but if it did, the other side's functions leave this cache alone *)
     apply keeps_of_pres. intros s0 H0. eapply cache_ok_cn; [|exact H0].
-    pose proof (frame_so_read (fst x) (snd x) c s0) as [Hf _].
+    pose proof (frame_so_read cfg (fst x) (snd x) c s0) as [Hf _].
     destruct (fst x), sd; try congruence; exact Hf.
   - apply K. unfold handle. apply keeps_bind; [apply keeps_bind; [apply keeps_gets|intros s0]|].
     { destruct (nth h (slots s0) None); [apply keeps_ret|apply keeps_raise]. }
     intros x. apply keeps_bind; [|intro; apply keeps_ret].
     destruct (side_eq_dec (fst x) sd) as [->|Hne]; [apply ok_so_set|].
     apply keeps_of_pres. intros s0 H0. eapply cache_ok_cn; [|exact H0].
-    pose proof (frame_so_set (fst x) (snd x) c v s0) as [Hf _].
+    pose proof (frame_so_set cfg (fst x) (snd x) c v s0) as [Hf _].
     destruct (fst x), sd; try congruence; exact Hf.
   - apply K. unfold handle. apply keeps_bind; [apply keeps_bind; [apply keeps_gets|intros s0]|].
     { destruct (nth h (slots s0) None); [apply keeps_ret|apply keeps_raise]. }
     intros x. apply keeps_bind; [|intro; apply keeps_ret].
     destruct (side_eq_dec (fst x) sd) as [->|Hne]; [apply ok_so_destroy|].
     apply keeps_of_pres. intros s0 H0. eapply cache_ok_cn; [|exact H0].
-    pose proof (frame_so_destroy (fst x) (snd x) s0) as [Hf _].
+    pose proof (frame_so_destroy cfg (fst x) (snd x) s0) as [Hf _].
     destruct (fst x), sd; try congruence; exact Hf.
   - apply K. unfold handle. apply keeps_bind; [apply keeps_bind; [apply keeps_gets|intros s0]|].
     { destruct (nth h (slots s0) None); [apply keeps_ret|apply keeps_raise]. }
@@ -528,7 +542,14 @@ Proof.
     intros x. apply keeps_bind; [|intro; apply keeps_ret].
     destruct (side_eq_dec (fst x) sd) as [->|Hne]; [apply ok_so_sync|].
     apply keeps_of_pres. intros s0 H0. eapply cache_ok_cn; [|exact H0].
-    pose proof (frame_so_sync (fst x) (snd x) s0) as [Hf _].
+    pose proof (frame_so_sync cfg (fst x) (snd x) s0) as [Hf _].
+    destruct (fst x), sd; try congruence; exact Hf.
+  - apply K. unfold handle. apply keeps_bind; [apply keeps_bind; [apply keeps_gets|intros s0]|].
+    { destruct (nth h (slots s0) None); [apply keeps_ret|apply keeps_raise]. }
+    intros x. apply keeps_bind; [|intro; apply keeps_ret].
+    destruct (side_eq_dec (fst x) sd) as [->|Hne]; [apply ok_so_sync_update|].
+    apply keeps_of_pres. intros s0 H0. eapply cache_ok_cn; [|exact H0].
+    pose proof (frame_so_sync_update cfg (fst x) (snd x) s0) as [Hf _].
     destruct (fst x), sd; try congruence; exact Hf.
   - apply K. apply keeps_bind; [|intro; apply keeps_ret]. apply keeps_modify. intros s0. apply cache_ok_slots.
   - inversion Hs; subst. apply K. apply keeps_bind; [apply keeps_gets|intros c].
